@@ -88,26 +88,6 @@ mod k {
         assert!(w.u_value_exterior(None).is_none(), "C06.uext.none");
     }
 
-    // C06.uint.value: U = 1/(R_f + A_i/(UA + 0.33 q)); with H = UA + 0.33 q: U*(R_f*H + A_i) = H
-    #[kani::proof]
-    #[kani::stub_verified(crate::utils::fround2)]
-    fn c06_uint_value() {
-        let a_i = any_f32_in(0.01, 1.0e4);
-        let r_f = any_f32_in(0.1, 100.0);
-        let ua = any_f32_in(0.0, 1.0e5);
-        let q = any_f32_in(0.0, 1.0e5);
-        kani::assume(ua + 0.33 * q >= 1.0e-3);
-        let w = mk_wall(90.0, BoundaryType::INTERIOR);
-        kani::cover!(true, "precondition satisfiable");
-        let u = w.u_value_interior_cond_uncond(a_i, r_f, ua, q);
-        assert!(u.is_some(), "C06.uint.some");
-        let u = u.unwrap() as f64;
-        let h = ua as f64 + 0.33 * (q as f64);
-        let den = r_f as f64 * h + a_i as f64;
-        // |u - h/den| <= 0.0051 + 1e-4 * h/den
-        assert!((u * den - h).abs() <= 0.0051 * den + 1.0e-4 * h, "C06.uint.value");
-    }
-
     // C06.gnd: a basement wall that is not buried (|z| < 1 cm) has the U of the same wall in outside air;
     // a buried roof keeps it as well.
     #[kani::proof]
@@ -237,5 +217,332 @@ mod k {
             }
             None => assert!(gs == g, "C07.g.shwi.fallback"),
         }
+    }
+}
+
+// =====================================================================================================
+// Native bounded obligations
+// =====================================================================================================
+#[cfg(verif_native)]
+mod n {
+    use super::*;
+    use crate::verif_root::mk::*;
+    use crate::verif_root::support::*;
+    use crate::types::HasSurface;
+
+    fn rsi(class: Tilt) -> f64 {
+        match class {
+            Tilt::TOP => 0.10,
+            Tilt::SIDE => 0.13,
+            Tilt::BOTTOM => 0.17,
+        }
+    }
+
+    fn round2(x: f64) -> f64 {
+        (x * 100.0).round() / 100.0
+    }
+
+    // ---- C06.resistance ---------------------------------------------------------------------------------
+    #[test]
+    fn n_c06_resistance() {
+        drive("C06.resistance", "WallCons::resistance: 0..3 layers, each material in {detailed 0.5 W/mK, detailed 0.04, resistance-only 0.18, detailed with conductivity 0, not in the model} x thickness {0.01, 0.2}", |c| {
+            let mut db = ConsDb::default();
+            db.materials = vec![material(0xE0, 0.5), material(0xE1, 0.04), material_r(0xE2, 0.18), material(0xE3, 0.0)];
+            let n = c.pick(4);
+            let mut layers = vec![];
+            let mut want: Option<f64> = Some(0.0);
+            for _ in 0..n {
+                let m = c.pick(5) as u128;
+                let e = c.of(&[0.01f32, 0.2]);
+                layers.push((0xE0 + m, e));
+                let r = match m {
+                    0 => Some(e as f64 / 0.5),
+                    1 => Some(e as f64 / 0.04),
+                    2 => Some(0.18),
+                    _ => None,
+                };
+                want = match (want, r) {
+                    (Some(a), Some(b)) => Some(a + b),
+                    _ => None,
+                };
+            }
+            c.note(format!("{:?}", layers));
+            let wc = wallcons(0xC0, &layers);
+            let got = wc.resistance(&db);
+            match want {
+                None => c.check("C06.resistance.err", got.is_err(), || format!("resistance {:?} for a construction with a missing / non-conducting material", got.as_ref().ok())),
+                Some(w) => {
+                    c.check("C06.resistance.value", matches!(&got, Ok(r) if approx64(*r, w, 1e-5, 1e-6)), || format!("resistance {:?} want {}", got.as_ref().ok(), w));
+                    // appending a layer or thickening one never decreases the resistance
+                    let r0 = got.unwrap_or(f32::NAN);
+                    for extra in [(0xE0u128, 0.05f32), (0xE2, 0.05)] {
+                        let mut l2 = layers.clone();
+                        l2.push(extra);
+                        let r2 = wallcons(0xC1, &l2).resistance(&db).unwrap();
+                        c.check("C06.resistance.monotone.append", r2 >= r0, || format!("appending {:?}: {} -> {}", extra, r0, r2));
+                    }
+                    for k in 0..layers.len() {
+                        let mut l2 = layers.clone();
+                        l2[k].1 *= 1.5;
+                        let r2 = wallcons(0xC1, &l2).resistance(&db).unwrap();
+                        c.check("C06.resistance.monotone.thicken", r2 >= r0, || format!("thickening layer {}: {} -> {}", k, r0, r2));
+                    }
+                    if w > 0.0 {
+                        c.nontrivial(format!("{:?}", layers));
+                    }
+                }
+            }
+            c.sample(|| format!("{:?} -> {:?}", layers, wc.resistance(&db).ok()));
+        });
+    }
+
+    // ---- C06.uint.value: partition between a conditioned and an unconditioned space --------------------------
+    #[test]
+    fn n_c06_uint_value() {
+        drive("C06.uint.value", "Wall::u_value_interior_cond_uncond on a grid: A_i {0.5,12,300} x R_f {0.15,0.6,1,4} x sum(A_e U_e) {0,3.5,80} x q {0,15,400}", |c| {
+            let a_i = c.of(&[0.5f32, 12.0, 300.0]);
+            let r_f = c.of(&[0.15f32, 0.6, 1.0, 4.0]);
+            let ua = c.of(&[0.0f32, 3.5, 80.0]);
+            let q = c.of(&[0.0f32, 15.0, 400.0]);
+            c.note(format!("A_i={} R_f={} UA={} q={}", a_i, r_f, ua, q));
+            let w = mk_wall(90.0, BoundaryType::INTERIOR);
+            let u = w.u_value_interior_cond_uncond(a_i, r_f, ua, q);
+            let h = ua as f64 + 0.33 * q as f64;
+            let want = if h == 0.0 { 0.0 } else { 1.0 / (r_f as f64 + a_i as f64 / h) };
+            c.check("C06.uint.value", matches!(u, Some(u) if (u as f64 - want).abs() <= 0.0051), || format!("U = {:?} want {}", u, want));
+            // never increases with the element's own resistance
+            let u2 = w.u_value_interior_cond_uncond(a_i, r_f * 1.25, ua, q);
+            c.check("C06.uint.monotone", u2 <= u, || format!("R_f {} -> {}: U {:?} -> {:?}", r_f, r_f * 1.25, u, u2));
+            c.check("C06.uint.below_unprotected", matches!(u, Some(u) if (u as f64) <= 1.0 / r_f as f64 + 0.0051), || format!("U {:?} above 1/R_f", u));
+            if h > 0.0 {
+                c.nontrivial(format!("{} {} {} {}", a_i, r_f, ua, q));
+            }
+            c.sample(|| format!("A_i={} R_f={} UA={} q={} -> {:?}", a_i, r_f, ua, q, u));
+        });
+    }
+
+    // ---- C06.uext.mono: more resistance never increases U (float level, bounded grid) --------------------------
+    #[test]
+    fn n_c06_uext_mono() {
+        drive("C06.uext.mono", "Wall::u_value_exterior: 3 tilt classes x 400 resistances on a geometric grid 0.001..100: value to two decimals and exact monotonicity between neighbours", |c| {
+            let tilt = c.of(&[0.0f32, 90.0, 180.0]);
+            let k = c.pick(400);
+            let r = 0.001f32 * (1.0292f32).powi(k as i32);
+            let r2 = 0.001f32 * (1.0292f32).powi(k as i32 + 1);
+            let w = mk_wall(tilt, BoundaryType::EXTERIOR);
+            let (u, u2) = (w.u_value_exterior(Some(r)).unwrap(), w.u_value_exterior(Some(r2)).unwrap());
+            c.note(format!("tilt {} r {} -> {}", tilt, r, r2));
+            let want = 1.0 / (r as f64 + rsi_6946(tilt) + 0.04);
+            c.check("C06.uext.value", (u as f64 - want).abs() <= 0.0051, || format!("U {} want {}", u, want));
+            c.check("C06.uext.mono", u2 <= u, || format!("R {} -> {} but U {} -> {}", r, r2, u, u2));
+            c.nontrivial(format!("{} {}", tilt, k));
+            c.sample(|| format!("tilt {} R {} -> U {}", tilt, r, u));
+        });
+    }
+
+    // ---- C06.dispatch: Wall::u_value(model) ------------------------------------------------------------------
+    const KINDS3: [SpaceType; 3] = [SpaceType::CONDITIONED, SpaceType::UNCONDITIONED, SpaceType::UNINHABITED];
+    const BOUNDS: [BoundaryType; 4] = [BoundaryType::EXTERIOR, BoundaryType::ADIABATIC, BoundaryType::INTERIOR, BoundaryType::GROUND];
+
+    #[test]
+    fn n_c06_dispatch() {
+        drive(
+            "C06.dispatch",
+            "Wall::u_value(&Model): wall over 4 boundary kinds x tilt {0,90,180} x adjacent {none, s1, dangling} x construction {ok, not in model, with missing material} x own space {s0, dangling}; s0 / s1 over 3 kinds; s1 ventilation {none, 0.8 1/h}; building ventilation {none, 30 l/s}; s1 bounded by an exterior floor, an exterior wall with a window",
+            |c| {
+                let b = c.of(&BOUNDS);
+                let tilt = c.of(&[0.0f32, 90.0, 180.0]);
+                let nx = c.pick(3);
+                let cons = c.pick(3);
+                let own = c.pick(2);
+                let k0 = c.of(&KINDS3);
+                let k1 = c.of(&KINDS3);
+                let nv1 = c.of(&[None, Some(0.8f32)]);
+                let vent = c.of(&[None, Some(30.0f32)]);
+                let mut m = empty_model();
+                m.meta.global_ventilation_l_s = vent;
+                m.spaces.push(space(0xA0, true, k0, 1.0, 3.0));
+                let mut s1 = space(0xA1, true, k1, 1.0, 2.5);
+                s1.n_v = nv1;
+                m.spaces.push(s1);
+                m.cons.materials = vec![material(0xE0, 0.5), material_r(0xE2, 0.18)];
+                m.cons.wallcons = vec![wallcons(0xC0, &[(0xE0, 0.25), (0xE2, 0.0)]), wallcons(0xC2, &[(0xE0, 0.25), (0xEE, 0.1)])];
+                m.cons.glasses = vec![glass(0xF0)];
+                m.cons.frames = vec![frame(0xF1)];
+                m.cons.wincons = vec![wincons(0xD0, uid(0xF0), uid(0xF1))];
+                let r_cons = 0.25f64 / 0.5 + 0.18;
+                // s0: floor over outside air (so that its area is defined without ground formulas)
+                m.walls.push(wall(1, BoundaryType::EXTERIOR, uid(0xA0), None, uid(0xC0), 180.0, 0.0, rect(4.0, 5.0), None));
+                // s1: floor over outside air 3x5, exterior wall 3x2.5 with a 1x1 window
+                m.walls.push(wall(2, BoundaryType::EXTERIOR, uid(0xA1), None, uid(0xC0), 180.0, 0.0, rect(3.0, 5.0), None));
+                m.walls.push(wall(3, BoundaryType::EXTERIOR, uid(0xA1), None, uid(0xC0), 90.0, 0.0, rect(3.0, 2.5), None));
+                m.windows.push(window(0x11, uid(3), uid(0xD0), 1.0, 1.0, None, 0.0));
+                // the wall under contract
+                let cid = [uid(0xC0), uid(0xCC), uid(0xC2)][cons];
+                let sid = [uid(0xA0), uid(0x9999)][own];
+                let nid = [None, Some(uid(0xA1)), Some(uid(0x9998))][nx];
+                let w = wall(9, b, sid, nid, cid, tilt, 0.0, rect(4.0, 3.0), None);
+                m.walls.push(w.clone());
+                c.note(format!("{:?} tilt {} next#{} cons#{} own#{} k0 {:?} k1 {:?} n_v {:?} vent {:?}", b, tilt, nx, cons, own, k0, k1, nv1, vent));
+                let got = w.u_value(&m);
+                let class = if tilt == 0.0 { Tilt::TOP } else if tilt == 90.0 { Tilt::SIDE } else { Tilt::BOTTOM };
+                let u_ext = 1.0 / (r_cons + rsi(class) + 0.04);
+                let close = |got: Option<f32>, want: f64| matches!(got, Some(u) if (u as f64 - want).abs() <= 0.0051 + 1e-4 * want);
+                if cons != 0 {
+                    c.check("C06.dispatch.no_construction", got.is_none(), || format!("U = {:?} for an element whose construction / material is missing", got));
+                    return;
+                }
+                match b {
+                    BoundaryType::EXTERIOR | BoundaryType::ADIABATIC => {
+                        c.check("C06.dispatch.air", close(got, u_ext), || format!("U = {:?} want {}", got, u_ext));
+                    }
+                    BoundaryType::GROUND => {
+                        if own == 1 {
+                            c.check("C06.dispatch.ground.no_space", got.is_none(), || format!("U = {:?} without a space", got));
+                        } else if class == Tilt::TOP {
+                            // (s0 has no slab on the ground; whether a buried roof then has a value is not part of the statement)
+                            c.check("C06.dispatch.ground.roof", got.is_none() || close(got, u_ext), || format!("buried roof U = {:?} want {}", got, u_ext));
+                        } else if class == Tilt::SIDE {
+                            // s0 has no slab on the ground: no equivalent thickness, hence no value (nothing to report)
+                            c.check("C06.dispatch.ground.wall_without_slab", got.is_none() || close(got, u_ext), || format!("U = {:?}", got));
+                        }
+                    }
+                    BoundaryType::INTERIOR => {
+                        if own == 1 {
+                            c.check("C06.dispatch.interior.no_space", got.is_none(), || format!("U = {:?} without own space", got));
+                            return;
+                        }
+                        match nx {
+                            0 => {
+                                let want = 1.0 / (r_cons + 2.0 * rsi(class));
+                                c.check("C06.dispatch.interior.no_adjacent", close(got, want), || format!("U = {:?} want {}", got, want));
+                            }
+                            2 => c.check("C06.dispatch.interior.dangling_adjacent", got.is_none(), || format!("U = {:?} with a missing adjacent space", got)),
+                            _ => {
+                                let this_cond = k0 == SpaceType::CONDITIONED;
+                                let next_cond = k1 == SpaceType::CONDITIONED;
+                                if this_cond == next_cond {
+                                    // equally conditioned: a plain partition, between the two extreme surface resistances
+                                    let (lo, hi) = (1.0 / (r_cons + 0.34), 1.0 / (r_cons + 0.20));
+                                    c.check("C06.dispatch.interior.equal", matches!(got, Some(u) if (u as f64) >= lo - 0.006 && (u as f64) <= hi + 0.006), || format!("U = {:?} outside [{}, {}]", got, lo, hi));
+                                } else {
+                                    // heat flows from the conditioned to the unconditioned space
+                                    let down = (class == Tilt::BOTTOM && this_cond) || (class == Tilt::TOP && next_cond);
+                                    let up = (class == Tilt::TOP && this_cond) || (class == Tilt::BOTTOM && next_cond);
+                                    let r_f = r_cons + 2.0 * if down { 0.17 } else if up { 0.10 } else { 0.13 };
+                                    // floor area and net height of both spaces from their definitions (the wall under
+                                    // contract may itself be a floor of s0 or the ceiling of s1)
+                                    let is_floor_of_s0 = class == Tilt::BOTTOM;
+                                    let is_ceiling_of_s1 = class == Tilt::BOTTOM; // a floor of s0 given from above covers s1
+                                    let is_roof_of_s0 = class == Tilt::TOP;
+                                    let area0 = 20.0 + if is_floor_of_s0 { 12.0 } else { 0.0 };
+                                    let area1 = 15.0;
+                                    let hnet0 = 3.0 - if is_roof_of_s0 { 0.25 } else { 0.0 };
+                                    let hnet1 = 2.5 - if is_ceiling_of_s1 { 0.25 } else { 0.0 };
+                                    let a_i = 12.0f64;
+                                    // the unconditioned space and its losses to the outside
+                                    let unc_is_s1 = this_cond;
+                                    let u_floor = round2(1.0 / (r_cons + 0.17 + 0.04));
+                                    let (ua, vol, nv) = if unc_is_s1 {
+                                        let u_wall = round2(1.0 / (r_cons + 0.13 + 0.04));
+                                        let u_win = round2(1.1 * (0.25 * 2.2 + 0.75 * 1.4));
+                                        (15.0 * u_floor + (7.5 - 1.0) * u_wall + 1.0 * u_win, area1 * hnet1, nv1)
+                                    } else {
+                                        (20.0 * u_floor, area0 * hnet0, None)
+                                    };
+                                    // building-wide rate: 3.6 * l/s / net volume of the habitable spaces inside the envelope
+                                    let hab = |k: SpaceType| k != SpaceType::UNINHABITED;
+                                    let vinh = (if hab(k0) { area0 * hnet0 } else { 0.0 }) + (if hab(k1) { area1 * hnet1 } else { 0.0 });
+                                    let n = match nv {
+                                        Some(n) => n as f64,
+                                        None => match vent {
+                                            Some(l) if vinh > 0.0 => round2(3.6 * l as f64 / round2(vinh) * 1.0e6) / 1.0e6,
+                                            Some(_) => f64::INFINITY,
+                                            None => 0.0,
+                                        },
+                                    };
+                                    let h = ua + 0.33 * n * vol;
+                                    let want = 1.0 / (r_f + a_i / h);
+                                    c.check("C06.dispatch.interior.cond_uncond", close(got, want), || format!("U = {:?} want {} (R_f {} UA {} n {} V {})", got, want, r_f, ua, n, vol));
+                                    c.nontrivial(format!("{} {:?} {:?} {:?} {:?}", tilt, k0, k1, nv1, vent));
+                                }
+                            }
+                        }
+                    }
+                }
+                c.sample(|| format!("{:?} tilt {} next#{} k0 {:?} k1 {:?} -> {:?}", b, tilt, nx, k0, k1, got));
+            },
+        );
+    }
+
+    // ---- C07: window construction values and downstream defaults -------------------------------------------------
+    #[test]
+    fn n_c07_wincons_value() {
+        drive("C07.u.value", "WinCons::u_value / g_glwi / g_glshwi on a grid: U_g {0.6,1.4,5.7} x U_f {1.0,2.2,5.9} x F_f {0,0.2,0.55,1} x dU {0,10,50} x g_gl;n {0.35,0.85} x user shading factor {none,0.12}", |c| {
+            let ug = c.of(&[0.6f32, 1.4, 5.7]);
+            let uf = c.of(&[1.0f32, 2.2, 5.9]);
+            let ff = c.of(&[0.0f32, 0.2, 0.55, 1.0]);
+            let du = c.of(&[0.0f32, 10.0, 50.0]);
+            let ggl = c.of(&[0.35f32, 0.85]);
+            let user = c.of(&[None, Some(0.12f32)]);
+            c.note(format!("Ug {} Uf {} Ff {} dU {} ggl {} user {:?}", ug, uf, ff, du, ggl, user));
+            let mut db = ConsDb::default();
+            db.glasses = vec![Glass { id: uid(0xF0), name: "g".into(), u_value: ug, g_gln: ggl }];
+            db.frames = vec![Frame { id: uid(0xF1), name: "f".into(), u_value: uf, absorptivity: 0.6 }];
+            let wc = WinCons { id: uid(0xD0), name: "x".into(), glass: uid(0xF0), frame: uid(0xF1), f_f: ff, delta_u: du, g_glshwi: user, c_100: 27.0 };
+            let u = wc.u_value(&db);
+            let want = (1.0 + du as f64 / 100.0) * (ff as f64 * uf as f64 + (1.0 - ff as f64) * ug as f64);
+            c.check("C07.u.value", matches!(u, Some(u) if (u as f64 - want).abs() <= 0.0051), || format!("U = {:?} want {}", u, want));
+            let (lo, hi) = (ug.min(uf) as f64 * (1.0 + du as f64 / 100.0), ug.max(uf) as f64 * (1.0 + du as f64 / 100.0));
+            c.check("C07.u.between", matches!(u, Some(u) if (u as f64) >= lo - 0.0051 && (u as f64) <= hi + 0.0051), || format!("U = {:?} outside [{}, {}]", u, lo, hi));
+            let g = wc.g_glwi(&db);
+            c.check("C07.g.wi", matches!(g, Some(g) if (g as f64 - 0.9 * ggl as f64).abs() <= 0.0051), || format!("g_gl;wi = {:?} want {}", g, 0.9 * ggl));
+            let gs = wc.g_glshwi(&db);
+            match user {
+                Some(v) => c.check("C07.g.shwi.user", matches!(gs, Some(x) if (x - v).abs() <= 0.0051), || format!("g_gl;sh;wi = {:?} want user value {}", gs, v)),
+                None => c.check("C07.g.shwi.fallback", gs == g, || format!("g_gl;sh;wi = {:?} want g_gl;wi = {:?}", gs, g)),
+            }
+            c.nontrivial(format!("{} {} {} {} {} {:?}", ug, uf, ff, du, ggl, user));
+            c.sample(|| format!("Ug {} Uf {} Ff {} dU {} -> U {:?} g {:?} gsh {:?}", ug, uf, ff, du, u, g, gs));
+        });
+    }
+
+    #[test]
+    fn n_c07_defaults() {
+        drive("C07.defaults", "EnergyProps::from + KData + QSolJulData: window construction with glazing {ok, nil, dangling} x frame {ok, dangling} x user shading factor {none, 0.12}; window with / without construction: defaults 0.77 / g_gl;wi fallback / 5.7 W/m2K", |c| {
+            let gl = c.pick(3);
+            let fr = c.pick(2);
+            let user = c.of(&[None, Some(0.12f32)]);
+            let has_cons = c.flag();
+            let mut m = empty_model();
+            m.spaces.push(space(0xA0, true, SpaceType::CONDITIONED, 1.0, 3.0));
+            m.cons.materials = vec![material(0xE0, 0.5)];
+            m.cons.wallcons = vec![wallcons(0xC0, &[(0xE0, 0.25)])];
+            m.cons.glasses = vec![glass(0xF0)];
+            m.cons.frames = vec![frame(0xF1)];
+            let mut wc = wincons(0xD0, [uid(0xF0), Uuid::nil(), uid(0xFE)][gl], [uid(0xF1), uid(0xFD)][fr]);
+            wc.g_glshwi = user;
+            m.cons.wincons = vec![wc];
+            m.walls.push(wall(1, BoundaryType::EXTERIOR, uid(0xA0), None, uid(0xC0), 180.0, 0.0, rect(4.0, 5.0), None));
+            m.walls.push(wall(2, BoundaryType::EXTERIOR, uid(0xA0), None, uid(0xC0), 90.0, 0.0, rect(4.0, 3.0), None));
+            m.windows.push(window(0x11, uid(2), if has_cons { uid(0xD0) } else { uid(0xDE) }, 2.0, 1.5, None, 0.0));
+            c.note(format!("glass#{} frame#{} user {:?} has_cons {}", gl, fr, user, has_cons));
+            let ind = m.energy_indicators();
+            let p = &ind.props;
+            let wcp = &p.wincons[&uid(0xD0)];
+            let resolves = gl == 0 && fr == 0;
+            c.check("C07.u.none", wcp.u_value.is_some() == resolves, || format!("construction U {:?}, glazing/frame resolve: {}", wcp.u_value, resolves));
+            let g_wi = if gl == 0 { 0.54 } else { 0.77 };
+            c.check("C07.defaults.g_glwi", (wcp.g_glwi - g_wi).abs() < 1e-6, || format!("g_gl;wi {} want {}", wcp.g_glwi, g_wi));
+            let g_sh = user.unwrap_or(g_wi);
+            c.check("C07.defaults.g_glshwi", (wcp.g_glshwi - g_sh).abs() < 1e-6, || format!("g_gl;sh;wi {} want {}", wcp.g_glshwi, g_sh));
+            // downstream: K uses 5.7 W/m2K when the window has no U; q_sol;jul uses 0.77 / 0.20 without construction
+            let win_u = if has_cons && resolves { round2(1.1 * (0.25 * 2.2 + 0.75 * 1.4)) } else { 5.7 };
+            c.check("C07.defaults.k_uses_5_7", approx64(ind.K_data.windows.au, 3.0 * win_u, 1e-4, 1e-4), || format!("window A.U {} want {}", ind.K_data.windows.au, 3.0 * win_u));
+            let (g_used, ff_used) = if has_cons { (g_sh as f64, 0.25) } else { (0.77, 0.20) };
+            c.check("C07.defaults.qsoljul", approx64(ind.q_soljul_data.gglshwi_mean, g_used, 1e-4, 1e-5) && approx64(ind.q_soljul_data.f_f_mean, ff_used, 1e-4, 1e-5), || format!("q_sol;jul used g {} F_f {} want {} {}", ind.q_soljul_data.gglshwi_mean, ind.q_soljul_data.f_f_mean, g_used, ff_used));
+            c.nontrivial(format!("{} {} {:?} {}", gl, fr, user, has_cons));
+            c.sample(|| format!("glass#{} frame#{} user {:?} cons {} -> U {:?} g {} / {}", gl, fr, user, has_cons, wcp.u_value, wcp.g_glwi, wcp.g_glshwi));
+        });
     }
 }
